@@ -14,12 +14,13 @@ import (
 //
 // Part A (c09_grid_test.go): TTL x hop-count boundary grid on the eight
 // receivers over a vt pipe, plus the OptionTTL value contract.
-// Part B (c09_chain_test.go, c09_loop_test.go, c09_held_test.go): real
-// mangos.Device chains with concurrent clients, forwarding loops that must die
-// out, and chains whose cooked server holds several requests at once.
+// Part B (c09_chain_test.go, c09_loop_test.go, c09_held_test.go,
+// c09_replace_test.go): real mangos.Device chains with concurrent clients,
+// forwarding loops that must die out, chains whose cooked server holds several
+// requests at once, and chains in which connections go away and are replaced.
 
 type c09Spec struct {
-	Kind string `json:"kind"` // grid | opt | chain | loop | slow | held
+	Kind string `json:"kind"` // grid | opt | chain | loop | slow | held | replace
 
 	// grid / opt
 	Recv string `json:"recv,omitempty"` // rep xrep respondent xrespondent xpair1 pair1 xstar star
@@ -41,7 +42,10 @@ type c09Spec struct {
 
 	// loop
 	TTL2 int `json:"ttl2,omitempty"` // TTL of the second receiver in the cycle
-	N    int `json:"n,omitempty"`    // messages sent round the loop
+	N    int `json:"n,omitempty"`    // messages sent round the loop; replace: connections replaced one after the other
+
+	// replace (chain in which a connection goes away and is replaced by a new one)
+	How string `json:"how,omitempty"` // pipe (one end closes the connection, the dialler re-establishes it) | restart (a node is closed and a new one takes its place) | make-first (the new server is attached before the old one is closed)
 }
 
 func TestMain(m *testing.M) { hx.Main(m) }
@@ -88,6 +92,7 @@ func TestC09(t *testing.T) {
 	cases = append(cases, c09ChainCases(r, rnd)...)
 	cases = append(cases, c09LoopCases(r, rnd)...)
 	cases = append(cases, c09HeldCases(r, rnd)...)
+	cases = append(cases, c09ReplaceCases(r, rnd)...)
 
 	for i := 0; i < r.Pick(3, 30); i++ {
 		cases = append(cases, mon.CaseSpec{Name: "slow-receiver", Spec: c09Spec{Kind: "slow", TTL: i % 3}})
@@ -114,6 +119,8 @@ func TestC09(t *testing.T) {
 			c09Slow(c, sp)
 		case "held":
 			c09Held(c, sp)
+		case "replace":
+			c09Replace(c, sp)
 		default:
 			panic(fmt.Sprintf("c09: kind %q", sp.Kind))
 		}
